@@ -125,7 +125,7 @@ func C02(run *hx.Run) {
 				detail := hx.M{"profile": d.Profile, "db_seed": d.Seed, "table": t.Name, "index": c.ix.Name}
 				switch {
 				case pm != "":
-					run.Violation(base+"/panic", "IndexedSelect panicked: "+pm, detail)
+					run.Violation(base+"/"+pmKind(pm), "IndexedSelect: "+pm, detail)
 					continue
 				case err != nil:
 					run.Violation(base+"/error", fmt.Sprintf("IndexedSelect(%s, %s) on a well-formed database: %v (after %d rows)", t.Name, c.ix.Name, err, len(got)), detail)
